@@ -181,7 +181,16 @@ impl Store {
                 }
             }
         }
-        latest.into_values().map(decode).collect()
+        // The map is keyed by the id's text, where "P-10" sorts before "P-2";
+        // the present enumerates a kind in ascending id order, and list-valued
+        // answers (a projection's assertion ids, rows without ORDER BY, what a
+        // LIMIT keeps) follow the enumeration order.
+        let mut elements: Vec<Element> = latest
+            .into_values()
+            .map(decode)
+            .collect::<Result<_, _>>()?;
+        elements.sort_by_key(|element| element.id().seq);
+        Ok(elements)
     }
 
     /// Resolves `AS OF TX :tx` to the Space sequence that transaction produced.
